@@ -24,6 +24,7 @@ type ConcCase struct {
 	Clients [][]Op    `json:"clients"`
 	Final   bool      `json:"final"`            // read every key back after the concurrent phase
 	Reopen  bool      `json:"reopen,omitempty"` // then Close, Open and read everything again: it must equal what was read before Close
+	Walk    bool      `json:"walk,omitempty"`   // C14: after the final read-back run a collection pass to quiescence and compare the roots with the readable keys
 }
 
 // HEvent is one completed operation of the history. Call and Ret are global scheduler event
@@ -166,6 +167,17 @@ func concExec(c ConcCase, choices []int32) (RunOut, *concRun) {
 				cr.do(0, Op{K: "get", Key: k})
 			}
 			cr.do(0, Op{K: "keys"})
+		}
+		if c.Walk {
+			sr := &seqRun{c: SeqCase{Prop: c.Prop}, w: w, m: refmodel.New(), a: cr.a, idx: &valueIndex{}, probes: map[string]uint64{}, faults: map[string]uint64{}}
+			for _, o := range cr.written {
+				sr.idx.add(refmodel.Val{ID: o.ID, Size: o.Size})
+			}
+			sr.finalWalk()
+			if sr.viol != nil {
+				cr.reopenViol = sr.viol
+				cr.reopenViol.Signature += ",after-concurrent-history"
+			}
 		}
 		if c.Reopen && c.Final {
 			before := cr.finalState()
